@@ -459,3 +459,15 @@ func (c *collectTB) guard(fn func()) {
 	}()
 	fn()
 }
+
+// try runs a piece of library code and returns the recovered panic value (nil if none).
+// Only library calls go inside, never assertions.
+func try(fn func()) (pv any) {
+	defer func() {
+		if r := recover(); r != nil {
+			pv = fmt.Sprintf("panic: %v", r)
+		}
+	}()
+	fn()
+	return nil
+}
